@@ -993,6 +993,27 @@ func (w *World) FinishStop(start time.Time, errsBefore int, limit time.Duration)
 	return exited
 }
 
+// ReleaseParked lets every goroutine go that has reported itself parked at a gate so far (a GO for a goroutine
+// that has been released already is ignored by the agent).
+func (w *World) ReleaseParked() {
+	w.evMu.Lock()
+	var seqs []int
+	for _, e := range w.evLog {
+		if e.Gated {
+			seqs = append(seqs, e.Seq)
+		}
+	}
+	w.evMu.Unlock()
+
+	if w.Agent == nil || !w.Agent.Alive() {
+		return
+	}
+
+	for _, s := range seqs {
+		_ = w.Agent.Go(s)
+	}
+}
+
 // WaitParked waits for a goroutine parked at the named gate (argument prefix) and returns its event number (0 on time-out).
 func (w *World) WaitParked(name, argPrefix string, nth int, timeout time.Duration) int {
 	deadline := time.Now().Add(timeout)
